@@ -480,6 +480,18 @@ pub fn load_vector_instructions(map: &mut HashMap<String, Instruction>) {
     );
 }
 
+/// Shifts index i by the offset. Returns the shifted index if it is a valid index of a
+/// vector of the given size and None otherwise. The sum is computed in i64, so it cannot
+/// overflow for any offset.
+fn offset_index(i: usize, offset: i32, size: usize) -> Option<usize> {
+    let shifted = (i as i64).checked_add(offset as i64)?;
+    if shifted >= 0 && (shifted as usize) < size {
+        Some(shifted as usize)
+    } else {
+        None
+    }
+}
+
 /////////////////////////////////////// BOOLVECTOR //////////////////////////////////////////
 
 /// BOOLVECTOR.ID: Pushes the ID of the BOOLVECTOR stack to the INTEGER stack.
@@ -514,10 +526,10 @@ pub fn bool_vector_and(push_state: &mut PushState, _instruction_cache: &Instruct
             // Loop through indices of second item
             let scd_size = bv[0].values.len();
             for i in 0..scd_size {
-                let ofs_idx = (i as i32 + offset) as usize;
-                if ofs_idx > scd_size - 1 {
-                    continue; // Out of bounds
-                }
+                let ofs_idx = match offset_index(i, offset, scd_size) {
+                    Some(idx) => idx,
+                    None => continue, // Out of bounds
+                };
                 bv[0].values[ofs_idx] &= bv[1].values[i];
             }
             push_state.bool_vector_stack.push(bv[0].clone());
@@ -549,10 +561,10 @@ pub fn bool_vector_or(push_state: &mut PushState, _instruction_cache: &Instructi
             // Loop through indices of second item
             let scd_size = bv[0].values.len();
             for i in 0..scd_size {
-                let ofs_idx = (i as i32 + offset) as usize;
-                if ofs_idx > scd_size - 1 {
-                    continue; // Out of bounds
-                }
+                let ofs_idx = match offset_index(i, offset, scd_size) {
+                    Some(idx) => idx,
+                    None => continue, // Out of bounds
+                };
                 bv[0].values[ofs_idx] |= bv[1].values[i];
             }
             push_state.bool_vector_stack.push(bv[0].clone());
@@ -566,10 +578,10 @@ pub fn bool_vector_not(push_state: &mut PushState, _instruction_cache: &Instruct
     if let Some(mut bvval) = push_state.bool_vector_stack.pop() {
         if let Some(offset) = push_state.int_stack.pop() {
             for i in 0..bvval.values.len() {
-                let ofs_idx = (i as i32 + offset) as usize;
-                if ofs_idx > bvval.values.len() - 1 {
-                    continue; // Out of bounds
-                }
+                let ofs_idx = match offset_index(i, offset, bvval.values.len()) {
+                    Some(idx) => idx,
+                    None => continue, // Out of bounds
+                };
                 bvval.values[ofs_idx] = !bvval.values[ofs_idx];
             }
             push_state.bool_vector_stack.push(bvval.clone());
@@ -821,10 +833,10 @@ pub fn int_vector_add(push_state: &mut PushState, _instruction_cache: &Instructi
             // Loop through indices of second item
             let scd_size = iv[0].values.len();
             for i in 0..scd_size {
-                let ofs_idx = (i as i32 + offset) as usize;
-                if ofs_idx > scd_size - 1 {
-                    continue; // Out of bounds
-                }
+                let ofs_idx = match offset_index(i, offset, scd_size) {
+                    Some(idx) => idx,
+                    None => continue, // Out of bounds
+                };
                 iv[0].values[ofs_idx] += iv[1].values[i];
             }
             push_state.int_vector_stack.push(iv[0].clone());
@@ -843,10 +855,10 @@ pub fn int_vector_subtract(push_state: &mut PushState, _instruction_cache: &Inst
             // Loop through indices of second item
             let scd_size = iv[0].values.len();
             for i in 0..scd_size {
-                let ofs_idx = (i as i32 + offset) as usize;
-                if ofs_idx > scd_size - 1 {
-                    continue; // Out of bounds
-                }
+                let ofs_idx = match offset_index(i, offset, scd_size) {
+                    Some(idx) => idx,
+                    None => continue, // Out of bounds
+                };
                 iv[0].values[ofs_idx] -= iv[1].values[i];
             }
             push_state.int_vector_stack.push(iv[0].clone());
@@ -865,10 +877,10 @@ pub fn int_vector_multiply(push_state: &mut PushState, _instruction_cache: &Inst
             // Loop through indices of second item
             let scd_size = iv[0].values.len();
             for i in 0..scd_size {
-                let ofs_idx = (i as i32 + offset) as usize;
-                if ofs_idx > scd_size - 1 {
-                    continue; // Out of bounds
-                }
+                let ofs_idx = match offset_index(i, offset, scd_size) {
+                    Some(idx) => idx,
+                    None => continue, // Out of bounds
+                };
                 iv[0].values[ofs_idx] *= iv[1].values[i];
             }
             push_state.int_vector_stack.push(iv[0].clone());
@@ -889,10 +901,10 @@ pub fn int_vector_divide(push_state: &mut PushState, _instruction_cache: &Instru
             // Loop through indices of second item
             let scd_size = iv[0].values.len();
             for i in 0..scd_size {
-                let ofs_idx = (i as i32 + offset) as usize;
-                if ofs_idx > scd_size - 1 {
-                    continue; // Out of bounds
-                }
+                let ofs_idx = match offset_index(i, offset, scd_size) {
+                    Some(idx) => idx,
+                    None => continue, // Out of bounds
+                };
                 if iv[1].values[i] == 0 {
                     invalid = true;
                 } else {
@@ -1212,10 +1224,10 @@ pub fn float_vector_add(push_state: &mut PushState, _instruction_cache: &Instruc
             // Loop through indices of second item
             let scd_size = iv[0].values.len();
             for i in 0..scd_size {
-                let ofs_idx = (i as i32 + offset) as usize;
-                if ofs_idx > scd_size - 1 {
-                    continue; // Out of bounds
-                }
+                let ofs_idx = match offset_index(i, offset, scd_size) {
+                    Some(idx) => idx,
+                    None => continue, // Out of bounds
+                };
                 iv[0].values[ofs_idx] += iv[1].values[i];
             }
             push_state.float_vector_stack.push(iv[0].clone());
@@ -1234,10 +1246,10 @@ pub fn float_vector_subtract(push_state: &mut PushState, _instruction_cache: &In
             // Loop through indices of second item
             let scd_size = iv[0].values.len();
             for i in 0..scd_size {
-                let ofs_idx = (i as i32 + offset) as usize;
-                if ofs_idx > scd_size - 1 {
-                    continue; // Out of bounds
-                }
+                let ofs_idx = match offset_index(i, offset, scd_size) {
+                    Some(idx) => idx,
+                    None => continue, // Out of bounds
+                };
                 iv[0].values[ofs_idx] -= iv[1].values[i];
             }
             push_state.float_vector_stack.push(iv[0].clone());
@@ -1256,10 +1268,10 @@ pub fn float_vector_multiply(push_state: &mut PushState, _instruction_cache: &In
             // Loop through indices of second item
             let scd_size = iv[0].values.len();
             for i in 0..scd_size {
-                let ofs_idx = (i as i32 + offset) as usize;
-                if ofs_idx > scd_size - 1 {
-                    continue; // Out of bounds
-                }
+                let ofs_idx = match offset_index(i, offset, scd_size) {
+                    Some(idx) => idx,
+                    None => continue, // Out of bounds
+                };
                 iv[0].values[ofs_idx] *= iv[1].values[i];
             }
             push_state.float_vector_stack.push(iv[0].clone());
@@ -1280,10 +1292,10 @@ pub fn float_vector_divide(push_state: &mut PushState, _instruction_cache: &Inst
             // Loop through indices of second item
             let scd_size = iv[0].values.len();
             for i in 0..scd_size {
-                let ofs_idx = (i as i32 + offset) as usize;
-                if ofs_idx > scd_size - 1 {
-                    continue; // Out of bounds
-                }
+                let ofs_idx = match offset_index(i, offset, scd_size) {
+                    Some(idx) => idx,
+                    None => continue, // Out of bounds
+                };
                 if iv[1].values[i] == 0.0 {
                     invalid = true;
                 } else {
